@@ -5,6 +5,10 @@ CONSTANTS
   MaxArgs = 4
   MaxKw = 6
   MaxSteps = 0
+  MaxRebind = 1
+  CtorModeSet = {"distinct", "equal", "boxed"}
+  CallModeSet = {"distinct", "equal", "asbound"}
+  FlagAtSet = {"init", "call"}
   AsCoded = FALSE
   SimK = 0
 CONSTRAINT StepBound
